@@ -487,6 +487,13 @@ def r4_index_parsing(R) -> None:
     tm = TermMatch(R)
     q = tm.q
     f = tm.f
+    for (verdict, detail, where_) in tm.memo:
+        if verdict == 'bad':
+            R.violation(q, 'memo-key-incomplete', detail, where=where_)
+        elif verdict == 'ok':
+            R.check(True, q, 'memo-key-complete', detail, '', where=where_)
+        else:
+            R.inconclusive(q, f'memoised-terms: {detail}')
     lv = tm.index_leaves()
     ok0 = False
     ints = []
